@@ -626,11 +626,14 @@ def _ldd(cfg, rng):
 # tomography (scikit-image back-end only in this sandbox)
 # ==========================================================================
 
-@recipe('RayTransform', fam='tomo', weight=0.3)
+@recipe('RayTransform', fam='tomo', weight=0.6)
 def _ray(cfg, rng):
     o = odl()
     n = opt(cfg, rng, 'n', [6, 8])
-    S = o.uniform_discr([-1, -1], [1, 1], [n, n])
+    S = o.uniform_discr([-1, -1], [1, 1], [n, n],
+                        dtype=opt(cfg, rng, 'dtype', ['float64', 'float64',
+                                                      'complex128',
+                                                      'float32']))
     geom = o.tomo.parallel_beam_geometry(S, num_angles=opt(cfg, rng, 'na',
                                                            [3, 5]))
     return o.tomo.RayTransform(S, geom, impl='skimage')
